@@ -122,7 +122,9 @@ Section CSparse.
 
   (* PBCGSolveMod(flag): status 0 singular flag, 1 returned, 2 fuel exhausted *)
   Definition pbcgsolvemod (fuel : nat) (L : clin) (flag : bool) : cvec * nat * nat :=
-    if flag then pbcg fuel L (cV L)
+    (* a zero right-hand side has the zero solution (guard at the top of PBCGSolveMod) *)
+    if forallb (fun z => ceqb A z (azero C)) (cb L) then (vzero C (cn L), 0, 1)
+    else if flag then pbcg fuel L (cV L)
     else match pcgsqstart L with
          | None => (cV L, 0, 0)
          | Some V0 => pbcg fuel L V0
